@@ -125,7 +125,7 @@ Inductive event :=
 | Written (w : writer) (r : renderer)      (* printer returned Ok *)
 | WriteFailed (w : writer) (r : renderer)  (* printer returned Err (possibly after a partial write) *)
 | Diag (c : channel)
-| PanicEv.                                 (* print_help_markdown(..).expect(..) *)
+| PanicEv.                                 (* was: print_help_markdown(..).expect(..); no longer produced since the fix of F-C20e *)
 
 (* how main() ends for an io::Error of main_result *)
 Definition io_exit (r : io_res) : list event * Z :=
